@@ -396,7 +396,7 @@ func lemmaTypedGettersAgreeOnFound(st *SlimTrie, key string) (bool, bool, bool, 
 //@ func (*SlimTrie).getInnerBM
 //@   property C19
 //@   requires st.inner != nil && st.inner.Inners != nil && qr != nil
-//@   opt kinds=post,frame
+//@   requires 0 <= qr.from && qr.from <= qr.to && int(qr.to) <= 64*len(st.inner.Inners.Words) && len(st.inner.Inners.Words) <= 16777216
 //@   ensures int(qr.to - qr.from) == int(st.inner.ShortSize) ==> result1 == 17 && len(result0) == 1 && result0[0] == qr.bm
 //@   ensures int(qr.to - qr.from) != int(st.inner.ShortSize) ==> result1 == qr.to - qr.from
 
